@@ -11,6 +11,7 @@ Tie (E1), five kinds of cases, every one executed on the real backends and compa
   hooks  : _process_idx / create_index_str / ComputeVar shift-once / roll / Fortran cshift rewrite called directly
   vec    : (traj kind) two structural classes x 2-4 units with a dense edge block (matvec) and sparse edges (indexed assignment), compiled
            vectorized for default/torch/jax and scalar for default/fortran; delayed variants (roll buffer) compared across backends only
+  rollnet: user-level roll(x, n) with positive / negative literal shifts on shaped vector variables, vectorize=False, four backends
   pop    : PopulationTemplate + Connectivity, plain matrix (matvec) and coupling EdgeTemplate (wsum / broadcast_pre / broadcast_post)
   scipy  : (support, tolerance) adaptive solver on a stiff-ish nonlinear model: no backend may fail alone; values within rtol."""
 import json, os, math
@@ -196,6 +197,41 @@ def impl_net(case):
 
 OPN = {0: "lin", 1: "linb"}
 
+def impl_rollnet(case):
+    """user-level roll(x, n) equations on explicitly shaped vector variables of one node, vectorize=False (so Fortran is allowed)"""
+    import numpy as np, pyr
+    from pyr import frac
+    from pyrates import OperatorTemplate, NodeTemplate, CircuitTemplate
+    b, prec, N = case["backend"], "float64", case["n"]
+    n1, n2, n3 = case["shifts"]
+    pyr.reset_pyrates()
+    try:
+        vec = lambda: {"vtype": "variable", "dtype": "float", "shape": (N,), "value": [0.0] * N}
+        vx = vec(); vx["vtype"] = "output"
+        op = OperatorTemplate(name="rop", path=None,
+                              equations=[f"x' = -a*x + k*roll(x, {n1}) + g*roll(z, {n2})", f"z' = x - a*roll(z, {n3})"],
+                              variables={"x": vx, "z": vec(), "a": 1.0, "k": 1.0, "g": 1.0})
+        net = CircuitTemplate(name="net", path=None, nodes={"p": NodeTemplate(name="p", path=None, operators=[op])})
+        func, args, names, smap = net.get_run_func("vf", 0.125, file_name=_fname("r"), vectorize=False, backend=b, float_precision=prec,
+                                                   solver="euler", in_place=False, clear=False, verbose=False)
+        names = list(names)
+        px, pz = smap["p/rop/x"], smap["p/rop/z"]
+        ny = int(np.prod(np.shape(args[1])))
+        outs = []
+        for pt in case["points"]:
+            a = list(args)
+            y = np.zeros(ny)
+            y[px[0]:px[1]] = [float(Fr(v)) for v in pt["x"]]; y[pz[0]:pz[1]] = [float(Fr(v)) for v in pt["z"]]
+            a[1] = _like(args[1], y, prec); a[2] = _like(args[2], np.zeros(ny), prec)
+            for nm in ("a", "k", "g"):
+                i = names.index(f"p/rop/{nm}")
+                a[i] = _like(args[i], float(Fr(pt[nm])), prec)
+            d = _call(func, a, b)
+            outs.append([[frac(v) for v in d[px[0]:px[1]]], [frac(v) for v in d[pz[0]:pz[1]]]])
+        return dict(outs=outs)
+    finally:
+        pyr.reset_pyrates()
+
 def build_lin(case):
     from pyrates import OperatorTemplate, NodeTemplate, CircuitTemplate
     eqs = ["x' = -a*x + g*v + inp", "v' = h*x - c*v"] if not case.get("stiff") else ["x' = -a*x + g*v + inp - x*x*x", "v' = h*x - c*v"]
@@ -346,7 +382,7 @@ def impl_hooks(case):
     return out
 
 def impl(case):
-    return {"interp": impl_interp, "net": impl_net, "traj": impl_traj, "hooks": impl_hooks, "pop": impl_pop}[case["kind"]](case)
+    return {"interp": impl_interp, "net": impl_net, "traj": impl_traj, "hooks": impl_hooks, "pop": impl_pop, "rollnet": impl_rollnet}[case["kind"]](case)
 
 # =============================================================================================== generators
 def dy(rng, lo, hi, den):
@@ -490,6 +526,13 @@ def gen_pop_model(rng):
     ss = rng.choice([1, 1, 2])
     return dict(kind="pop", pops=pops, conns=conns, dt=str(Fr(1, rng.choice([2, 4]))), steps=rng.choice([2, 3]) * ss, ss=ss)
 
+def gen_rollnet(rng):
+    N = rng.randint(2, 6)
+    sh = lambda: rng.choice([-1, -1, -2, 1, 2, -N, N + 1, -(N + 1), rng.randint(-7, 7)])
+    vec = lambda: [dy(rng, -8, 8, 4) for _ in range(N)]
+    return dict(kind="rollnet", n=N, shifts=[sh(), sh(), sh()],
+                points=[dict(x=vec(), z=vec(), a=dy(rng, -4, 4, 2), k=dy(rng, -4, 4, 2), g=dy(rng, -4, 4, 2)) for _ in range(3)])
+
 def gen_hooks(rng, backend):
     nv = rng.randint(1, 4)
     v = list(range(1, rng.randint(2, 7)))
@@ -553,6 +596,12 @@ def generate(ctx):
         m = gen_pop_model(rng)
         for b in PY_BACKENDS:
             cases.append(dict(m, backend=b, mid=f"pop{i}"))
+    # user-level roll equations with positive and negative literal shifts (all four backends)
+    n_roll, n_roll_f = (4, 2) if q else (40, 16)
+    for i in range(n_roll):
+        m = gen_rollnet(rng)
+        for b in PY_BACKENDS + (["fortran"] if i < n_roll_f else []):
+            cases.append(dict(m, backend=b, mid=f"roll{i}"))
     # hooks
     for b in ["default", "torch", "jax", "fortran", "onebased"]:
         for _ in range(3 if q else 20):
@@ -575,6 +624,8 @@ def nontrivial(case):
         return bool(case["edges"]) and any(sum(m[1:]) >= 2 for o in case["ops"].values() for m in o["px"] + o["pv"])
     if k == "pop":
         return any(c["kind"] for c in case["conns"])
+    if k == "rollnet":
+        return any(sh % case["n"] != 0 for sh in case["shifts"])
     if k == "traj":
         return case["steps"] >= 2 and (case["backend"] != "default" or case["solver"] != "euler" or case["vectorize"])
     if k == "hooks":
@@ -612,6 +663,12 @@ Definition p_okI (e : backend * popsys * Qc * nat * nat * row * list row) :=
   let '(b, s, dt, steps, ss, y0, o) := e in rows_eqb (pop_run_impl b s dt steps ss y0) o.
 Definition p_okS (e : backend * popsys * Qc * nat * nat * row * list row) :=
   let '(b, s, dt, steps, ss, y0, o) := e in rows_eqb (pop_run_spec s dt steps ss y0) o.
+(* user-level roll equations *)
+Definition pair_eqb (a b : row * row) := row_eqb (fst a) (fst b) && row_eqb (snd a) (snd b).
+Definition l_okI (e : backend * (Qc * Qc * Qc) * (Z * Z * Z) * row * row * (row * row)) :=
+  let '(b, (a, k, g), (n1, n2, n3), x, z, o) := e in pair_eqb (roll_net_deriv (roll_of b) a k g n1 n2 n3 x z) o.
+Definition l_okS (e : backend * (Qc * Qc * Qc) * (Z * Z * Z) * row * row * (row * row)) :=
+  let '(b, (a, k, g), (n1, n2, n3), x, z, o) := e in pair_eqb (roll_net_deriv roll a k g n1 n2 n3 x z) o.
 (* cross-backend agreement without a Spec (delay buffers) *)
 Definition x_ok (e : list row * list row) := rows_eqb (fst e) (snd e).
 (* hooks: (base, ints, rendered ints, ranges, rendered ranges, var values, calls, values after, roll v, k, observed, fortran shift) *)
@@ -668,6 +725,11 @@ def entries(case, out):
         for pt, o in zip(case["points"], out["outs"]):
             st = clist([f"({cq(x)}, {cq(v)})" for x, v in pt["state"]])
             es.append(("N", f"({cnet(case, pt['k'])}, {st}, {crow(o)})"))
+    elif k == "rollnet":
+        n1, n2, n3 = case["shifts"]
+        for pt, o in zip(case["points"], out["outs"]):
+            es.append(("L", f"({BK[case['backend']]}, ({cq(pt['a'])}, {cq(pt['k'])}, {cq(pt['g'])}), ({cz(n1)}, {cz(n2)}, {cz(n3)}), "
+                            f"{crow(pt['x'])}, {crow(pt['z'])}, ({crow(o[0])}, {crow(o[1])}))"))
     elif k == "pop":
         if "rows" in out:
             sysm = (f"{{| psizes := {clist([str(len(p['x'])) for p in case['pops']])}; petas := {clist([crow(p['eta']) for p in case['pops']])}; "
@@ -704,7 +766,7 @@ def entries(case, out):
 
 STREAMS = {  # stream -> (okI, okS, guard or None)
     "I": ("i_okI", "i_okS", "i_guard"), "R": ("r_okI", "r_okS", None), "N": ("n_ok", "n_ok", None),
-    "T": ("t_okI", "t_okS", "t_guard"), "P": ("p_okI", "p_okS", None), "X": ("x_ok", "x_ok", None), "H1": ("h_idx", "h_idx", None), "H2": ("h_rngI", "h_rngS", None),
+    "T": ("t_okI", "t_okS", "t_guard"), "P": ("p_okI", "p_okS", None), "X": ("x_ok", "x_ok", None), "L": ("l_okI", "l_okS", None), "H1": ("h_idx", "h_idx", None), "H2": ("h_rngI", "h_rngS", None),
     "H3": ("h_var", "h_var", None), "H4": ("h_roll", "h_roll", None), "H5": ("h_shiftI", "h_shiftS", None)}
 
 def model_compare(ctx, cases, outs, tag):
@@ -834,7 +896,7 @@ def shrink_case(ctx, case):
                 o, bi, bs, _, cr, _ = run_cases(ctx, [cand], "shr")
                 if bs or cr:
                     return cand
-    if case["kind"] == "net":
+    if case["kind"] in ("net", "rollnet"):
         for pt in case["points"]:
             cand = dict(case, points=[pt])
             o, bi, bs, _, cr, _ = run_cases(ctx, [cand], "shr")
@@ -892,7 +954,8 @@ def check(ctx):
                         "random polynomial 2-4 node network at 4 dyadic points with k overridden by frontend name; traj = run() on a linear model; "
                         "vectorized traj = two classes x 2-4 units, dense block + sparse edges, optional delayed edge (d = 2..3 steps, compared across backends and across vectorize on/off, "
                         "jax must raise NotImplementedError); pop = two populations, one matvec connection and one coupling-template connection; "
-                        "hooks = direct calls of the index/roll hooks. Non-trivial: pop with a coupling template; interp with >= 1 query strictly inside an interval; net with >= 1 edge "
+                        "rollnet = one node with two shaped vector variables and three roll(x, n) calls, n literal in -7..7 incl. multiples of the length; "
+                        "hooks = direct calls of the index/roll hooks. Non-trivial: pop with a coupling template; rollnet with a shift that is not a multiple of the length; interp with >= 1 query strictly inside an interval; net with >= 1 edge "
                         "and a monomial of degree >= 2; traj on a non-default backend / heun / vectorized; hooks on a 1-based backend or a non-identity roll. "
                         "distinct = distinct canonical JSON",
                    samples=[c for c in cases if c["kind"] == "traj"][:1] + [c for c in cases if c["kind"] == "interp"][:1],
